@@ -63,7 +63,7 @@ META = {
     "C10": {
         "technique": "runtime monitoring with fault enumeration: every adversarial frame sequence up to length 3 (thorough 4) against the real initiator and acceptor drivers over in-memory pipes; real<->real sessions with a local fault before every frame; shutdown races",
         "design_ref": "DESIGN.md §5 C10",
-        "level_text": "Exhaustive over the 13-letter frame alphabet up to the bounded length (x4 accept decisions), plus every fault position (close replica, sync off, actor shutdown, cut after / inside frame) of generated real sessions, plus requests racing with actor shutdown. Each side must end with Ok or a reported error, the outcome must be collectable, declines must not change the store, counters mirror on success, the actor must stay responsive. Non-termination is decided on exhausted inputs (streams closed, actor answering), not on a deadline.",
+        "level_text": "Exhaustive over the 14-letter frame alphabet up to the bounded length (x4 accept decisions), plus every fault position (close replica, sync off, actor shutdown, cut after / inside frame) of generated real sessions, plus requests racing with actor shutdown. Each side must end with Ok or a reported error, the outcome must be collectable, declines must not change the store, counters mirror on success, the actor must stay responsive. Non-termination is decided on exhausted inputs (streams closed, actor answering), not on a deadline.",
         "level_note": "The mirror equation is not judged when the harness cut the stream cleanly at a frame boundary: end-of-stream is the protocol's end marker and only an in-memory pipe can produce it on both sides mid-session.",
     },
     "C11": {
